@@ -33,8 +33,8 @@ type hMaskFilter struct {
 	calls  int
 }
 
-func (f *hMaskFilter) Name() string                                   { return "verif.mask" }
-func (f *hMaskFilter) Intersects(prop []byte) (bool, error)           { return false, nil }
+func (f *hMaskFilter) Name() string                                        { return "verif.mask" }
+func (f *hMaskFilter) Intersects(prop []byte) (bool, error)                { return false, nil }
 func (f *hMaskFilter) SyntheticSuffixIntersects(p, s []byte) (bool, error) { return false, nil }
 func (f *hMaskFilter) SetSuffix(suffix []byte) error {
 	f.suffix = append([]byte(nil), suffix...)
